@@ -133,6 +133,7 @@ Inductive c02case :=
 | G_map (offs : list N) (m : list (N * N))                                             (* makeRuneOffsetMap *)
 | G_lookup (m : list (N * N)) (r : N) (byte_off left : N)                               (* runeOffsetMap.lookup *)
 | G_samples (docs : list (list N)) (samples end_runes : list N)                         (* builder sampling, read back from the shard *)
+| G_brk (text : list N) (ms : list (bool * N * N)) (res : option (list (bool * N * N)))  (* breakMatchesOnNewlines; None = panic *)
 | G_find (filename plain : bool) (docs : list (list N)) (tail : list N) (qs : list (N * N * option N))
     (* findOffset(filename, r) for (document, r) pairs; None = error / panic *).
 
@@ -151,6 +152,8 @@ Definition c02_ok (c : c02case) : bool :=
   | G_samples docs samples end_runes =>
       let k := sample_corpus rune_offset_frequency docs 0 0 in
       nlist_eqb (map N.of_nat (k_samples k)) samples && nlist_eqb (map N.of_nat (k_end_runes k)) end_runes
+  | G_brk text ms res =>
+      opt_eqb (list_eqb cand_row_eqb) (do r <- break_matches text (map mk_cand ms); Ok (map cand_out r)) res
   | G_find filename plain docs tail qs =>
       forallb (fun q => let '(idx, r, res) := q in
                         outN_eqb (find_offset_corpus rune_offset_frequency
